@@ -60,7 +60,7 @@ pub const PROJECTIONS: [&str; 10] = ["merc", "webmerc", "tmerc", "utm", "btmerc"
 
 pub fn random(r: &mut Rng, name: &'static str) -> ProjDef {
     let ellps = r.pick(&ELLPS).to_string();
-    let lon_0 = *r.pick(&[0.0, 9.0, -75.5, 120.25, 15.0, -3.0]);
+    let lon_0 = *r.pick(&[0.0, 9.0, -75.5, 120.25, 15.0, -3.0, 190.0, -200.5, 180.0, 359.0]);
     let k_0 = *r.pick(&[1.0, 0.9996, 0.9999, 1.0002, 2.0, 0.5]);
     let x_0 = *r.pick(&[0.0, 500000.0, -1234.5, 2600000.0]);
     let y_0 = *r.pick(&[0.0, 10000000.0, 777.25, -1200000.0]);
